@@ -1,6 +1,8 @@
 """C05 — names are bound to the declaration selected by lexical scoping (Engine T, binding observed along executions)."""
-from vlib import common, progs
+from vlib import common, progs, xrun
 from vlib.checks import tcommon
+
+MK = "vlib.harness.h_c05"
 
 TABLES = [("space", "semantic_p3/s2space_p3.bundle*"), ("space1", "semantic_p1/s2space_p1.bundle*")]
 
@@ -20,7 +22,8 @@ def run(tier):
         "generated: a name assigned in every non-empty subset of {module, f, inner, inner-inner} and read at every level where visible",
         "the renaming clause of the property is a relation between runs (not addressed); class attributes are judged as fields",
     ]
-    r.outside += ["JavaScript let/const/var", "multi-file imports (not in this round)", "the X-kernel on scope forests of the design"]
+    r.outside += ["JavaScript let/const/var at program level", "multi-file imports (not in this round)"]
+    kernel_leg(r, tier)
     fam = progs.family_scope() + progs.family_scope_generated()
     wit = progs.scope_witnesses()
     tcommon.drive(r, fam + wit, len(fam), "check_scope", "check_scope_reach", "every executed occurrence is bound to the right declaration",
@@ -28,5 +31,32 @@ def run(tier):
     return r
 
 
+def kernel_leg(r, tier):
+    """Engine X: the real summarize_symbol_decls + resolve_symbol_source_decl on every scope forest of three scopes."""
+    r.encoded.append(common.src_ref("src/lian/basics/scope_hierarchy.py", "UnitScopeHierarchyAnalysis.summarize_symbol_decls (symbolically executed)"))
+    r.encoded.append(common.src_ref("src/lian/core/resolver.py", "Resolver.resolve_symbol_source_decl, organize_return_value (symbolically executed)"))
+    r.assumptions += [
+        "kernel: for every forest of 3 scopes (kind method/class/block/for, parent = module or an earlier scope, optionally named x, "
+        "optionally owning a declaration of x; rows in statement-id order as in lian's scope table), every current scope and both "
+        "values of source_symbol_must_be_global, the declaration returned is the one of the nearest scope on the lexical chain "
+        "that declares x; blocks directly under the module are consulted only if the chain declares nothing; else unresolved",
+        "kernel precondition: no scope owns two declarations of the same name (which row wins is not part of the claim)",
+    ]
+    r.stubs += ["Resolver.resolve_implicit_root_scopes: computed from the same rows with its documented meaning (BLOCK_KIND rows whose "
+                "scope_id is 0) instead of through the pandas table", "loader.is_import_stmt: False (imports are outside the kernel)"]
+    kinds = [0, 2] if tier == "quick" else [0, 1, 2, 3]
+    slices = [dict(scopes=3, kinds=kinds, fix={"k1": [a], "k2": [b], "cur": [c]}) for a in kinds for b in kinds for c in range(4)]
+    b = xrun.Batch(r)
+    b.add("kernel: resolution == nearest declaring scope of the lexical chain, on every 3-scope forest", MK, "check_resolution",
+          slices=slices, pct=600 if tier == "quick" else 3000, ppt=30, twin="check_resolution_reach",
+          twin_slice=dict(scopes=3, kinds=kinds, fix={"k1": [0], "k2": [0], "cur": [2]}),
+          bounds={"scopes": 3, "kinds": [["method", "class", "block", "for"][k] for k in kinds], "names": "x (declared) / others",
+                  "current scope": "module or any scope", "global flag": "both"})
+    b.execute()
+
+
 def replay(rec):
+    if rec["obligation"].startswith("kernel"):
+        out = xrun.replay_native(MK, "check_resolution", rec["cex"].get("slice", {}), rec["cex"]["cex"])
+        return bool(out.get("violated")), out
     return tcommon.replay_program(rec, "check_scope", "semantic", TABLES, progs.family_scope() + progs.family_scope_generated() + progs.scope_witnesses())
